@@ -388,6 +388,8 @@ def h_conv2d_linear_cost_vars(H, kind, bias, discrete):
     H.ensure('cost-vars:width-non-negative-and-monotone-in-mask-magnitude',
              H.and_(H.ge(H.scalar(va[kout]), 0), H.le(H.scalar(va[kout]), H.scalar(vb[kout]))))
     H.ensure('cost-vars:in-features-from-calculator', H.eq(H.scalar(va[kin]), 2))
+    # reading the description is an observer: the layer's own attributes are the objects they were
+    H.ensure('cost-vars:layer-not-modified', sorted(vars(la).keys()) == sorted(static.keys()) and all(vars(la)[key] is static[key] for key in static))
     if discrete:
         H.ensure('cost-vars:discrete-width-is-exported-width', H.eq(H.scalar(va[kout]), la.out_features_opt))
         c = H.scalar(params[(typ, static)](va))
@@ -483,7 +485,7 @@ HARNESSES = [
          quick=[dict(nd=1), dict(nd=2)], thorough=[dict(nd=1), dict(nd=2)]),
     dict(name='binarizer', fn='h_binarizer', property=['C01', 'C08', 'C12'], functions=[_P + 'binarizer.py::PITBinarizer.forward', _P + 'binarizer.py::PITBinarizer.backward'],
          quick=[{}], thorough=[{}]),
-    dict(name='conv1d-cost-vars', fn='h_conv1d_cost_vars', property=['C04'],
+    dict(name='conv1d-cost-vars', fn='h_conv1d_cost_vars', property=['C04', 'C18'],
          functions=[_P + 'conv1d.py::PITConv1d.get_modified_vars', _P + 'conv1d.py::PITConv1d.out_features_eff', _P + 'conv1d.py::PITConv1d.k_eff'],
          quick=[dict(k=k, dil0=1, cout=2, bias=True) for k in (1, 2, 3, 4, 5, 6, 7, 9)] + [dict(k=3, dil0=2, cout=3, bias=False)],
          thorough=[dict(k=k, dil0=d, cout=2, bias=b) for k in range(1, 13) for d in (1, 2) for b in _B], timeout=60),
@@ -493,7 +495,7 @@ HARNESSES = [
     dict(name='conv1d-cost-monotone', fn='h_conv1d_cost_monotone', property=['C12'],
          functions=[_P + 'conv1d.py::PITConv1d.get_modified_vars', _P + 'conv1d.py::PITConv1d.out_features_eff', _P + 'conv1d.py::PITConv1d.k_eff'],
          quick=[dict(k=k, cout=2, discrete=d) for k in (1, 2, 3, 4, 5, 6) for d in _B], thorough=[dict(k=k, cout=3, discrete=d) for k in range(1, 8) for d in _B] + [dict(k=k, cout=3, discrete=True) for k in (8, 9)], timeout=120),
-    dict(name='conv2d-linear-cost-vars', fn='h_conv2d_linear_cost_vars', property=['C04', 'C12'],
+    dict(name='conv2d-linear-cost-vars', fn='h_conv2d_linear_cost_vars', property=['C04', 'C12', 'C18'],
          functions=[_P + 'conv2d.py::PITConv2d.get_modified_vars', _P + 'conv2d.py::PITConv2d.out_features_eff', _P + 'linear.py::PITLinear.get_modified_vars',
                     _P + 'linear.py::PITLinear.out_features_eff'],
          quick=[dict(kind=k, bias=b, discrete=d) for k in ('conv2d', 'linear') for b in _B for d in _B],
